@@ -1113,14 +1113,20 @@ class C06(core.Check):
                 if o["deleted"]:
                     continue
                 if bj < len(hexes):
-                    for (ca, cb_), eu in zip(SLOT_CORNERS, o.get("edge_user", [])):
-                        if eu is not None:
+                    for (ca, cb_), eu, kind in zip(SLOT_CORNERS, o.get("edge_user", []), o.get("edge_kinds", [])):
+                        if kind != "line":
+                            # (None: a kind whose points are computed by the library -- origin / angle arcs, curves)
                             declared.setdefault(frozenset((hexes[bj][ca], hexes[bj][cb_])), []).append((hexes[bj][ca], eu))
                 bj += 1
         for pair, (kw, ix, payload) in file_edges.items():
-            cands = [(va, eu) for va, eu in declared.get(pair, []) if eu["kind"] == kw]
+            decl_here = declared.get(pair, [])
+            if any(eu is None for _, eu in decl_here):
+                # another operation declared an origin / angle arc, a projection or a curve between the same two vertices;
+                # the first valid edge wins (EdgeList.add) and its points are computed by the library (C07 / C08)
+                continue
+            cands = [(va, eu) for va, eu in decl_here if eu["kind"] == kw]
             if not cands or len(pair) != 2:
-                continue  # edges of built-in shapes, origin / angle arcs, projections: C07 / C08
+                continue  # edges of built-in shapes
             inner = payload[1]
             groups = [inner] if kw == "arc" else [g[1] for g in inner if isinstance(g, tuple)]
             ok_any = False
